@@ -715,10 +715,11 @@ class SBool(Sym):
 
 
 class SInt(Sym):
-    __slots__ = ("e",)
+    __slots__ = ("e", "src")
 
-    def __init__(self, e):
+    def __init__(self, e, src=None):
         self.e = e
+        self.src = src  # the digit items this integer was read from by int(), if any
 
     def __repr__(self):
         return "SInt(%s)" % self.e
